@@ -144,3 +144,48 @@ def run_history(h, beh, rng):
             h.repr(t)
         elif op == 'stats':
             h.stats(t)
+
+
+def build_from_model(h, t):
+    """Build the model tree t (Dom.tla value as JSON, e.g. emitted by MC_Dom) on History h through the
+    public API: typed attributes for options, typed content attributes for contents."""
+    from harness.abstraction import jconc
+    PRE = {'encoding': 'preamble_encoding', 'indent': 'preamble_indent', 'line_endings': 'preamble_line_endings',
+           'mimetype': 'preamble_mimetype'}
+    META = {'encoding': 'meta_encoding', 'format': 'meta_format'}
+    DIFF = {'encoding': 'diff_encoding', 'line_endings': 'diff_line_endings', 'type': 'diff_type'}
+
+    def val(o):
+        s = bytes(o['s']).decode('utf-8')
+        return int(s) if o['t'] == 'int' else s
+
+    def content(tid, ci, fi, cs, names, attr):
+        if cs['kind'] == 'text':
+            h.set(tid, ci, fi, attr, ''.join(chr(c) for c in cs['text']))
+        elif cs['kind'] == 'bytes':
+            h.set(tid, ci, fi, attr, bytes(cs['raw']))
+        elif cs['kind'] == 'meta' and cs['meta']['items']:
+            h.set(tid, ci, fi, attr, jconc(cs['meta']))
+        for o in cs['opts']:
+            k = bytes(o['k']).decode()
+            h.set(tid, ci, fi, names[k], val(o))
+
+    h.new()
+    tid = len(h.trees)
+    for o in t['opts']:
+        h.set(tid, 0, 0, bytes(o['k']).decode(), val(o))
+    content(tid, 0, 0, t['pre'], PRE, 'preamble')
+    content(tid, 0, 0, t['meta'], META, 'meta')
+    for ci, c in enumerate(t['changes'], 1):
+        h.addc(tid)
+        for o in c['opts']:
+            h.set(tid, ci, 0, bytes(o['k']).decode(), val(o))
+        content(tid, ci, 0, c['pre'], PRE, 'preamble')
+        content(tid, ci, 0, c['meta'], META, 'meta')
+        for fi, f in enumerate(c['files'], 1):
+            h.addf(tid, ci)
+            for o in f['opts']:
+                h.set(tid, ci, fi, bytes(o['k']).decode(), val(o))
+            content(tid, ci, fi, f['meta'], META, 'meta')
+            content(tid, ci, fi, f['diff'], DIFF, 'diff')
+    return tid
